@@ -64,11 +64,15 @@ def rule_generators(ctx, res):
         res.touch(b)
         s = Sym(b)
         s.run()
-        ok = len(s.complete_paths()) >= 2
+        # an iteration that refills and goes round again (`loop { if let Some(id) = ids.get(i) { .. return } self.refill() }`)
+        # is the same retry as the recursive call it replaces
+        s.loop_info()
+        judged = list(s.complete_paths()) + [p for p in s.paths if p.end == 'loop']
+        ok = len(judged) >= 2
         seen_kinds = set()
         inline = ctx.f.body(gfn) is None      # no separate block function: a shared (generic) helper was inlined into generate
         miss_paths = []
-        for p in s.complete_paths():
+        for p in judged:
             # "is there an id left in the block?": `ids.get(curr_index)` is Some, or `curr_index < ids.len()` / `< LEN`
             got = [option_is_some(literal(c)[2]) for c in p.conds if literal(c)[0] == 'variant' and literal(c)[1][0] == 'call' and literal(c)[1][1].endswith('::get')
                    and is_field_of_param(literal(c)[1][2][0], 'self', arr) and is_field_of_param(literal(c)[1][2][1], 'self', 'curr_index')]
@@ -79,6 +83,13 @@ def rule_generators(ctx, res):
                     is_len = (isinstance(lim, tuple) and lim[0] == 'call' and lim[1].split('::')[-1] == 'len' and field_chain(strip_transparent(lim[2][0]))[-1:] == [arr]) or term_int(lim) == 2048
                     if is_len:
                         got.append(bool(l[3]))
+            if p.end == 'loop':
+                # only an iteration of the retry loop itself counts: the back edge returns to (or before) the "id left?" test
+                tests = [c[2] for c in p.conds if c[2] is not None and ((literal(c)[0] == 'variant' and isinstance(literal(c)[1], tuple) and literal(c)[1][0] == 'call' and literal(c)[1][1].endswith('::get'))
+                                                                  or (literal(c)[0] == 'lt' and is_field_of_param(literal(c)[1], 'self', 'curr_index')))]
+                back = getattr(p, 'loop_to', None)
+                if not got or back is None or not tests or back not in p.blocks or p.blocks.index(back) > min(p.blocks.index(t) for t in tests if t in p.blocks):
+                    continue          # an iteration of some inner loop (filling the block)
             if not got:
                 ok = False
                 continue
@@ -115,10 +126,10 @@ def rule_generators(ctx, res):
                 else:
                     fresh = (na is not None and ids is not None and term_int(ci0) == 0 and find_calls(na, gfn.split('::')[-1]) and find_calls(ids, gfn.split('::')[-1])
                              and is_field_of_param(find_calls(na, gfn.split('::')[-1])[0][2][0], 'self', 'next_alloc') and bool(shuffled))
-                retry = p.ret[0] == 'call' and p.ret[1] == gen and term_int(ws.get('curr_index')) == 0
-                idx0 = [x for x in lib.term_walk(p.ret) if isinstance(x, tuple) and x and x[0] == 'index' and term_int(x[2]) == 0
+                retry = ((p.end == 'loop') or (p.ret is not None and p.ret[0] == 'call' and p.ret[1] == gen)) and term_int(ws.get('curr_index')) == 0
+                idx0 = [x for x in lib.term_walk(p.ret or ()) if isinstance(x, tuple) and x and x[0] == 'index' and term_int(x[2]) == 0
                         and (find_calls(x[1], gfn.split('::')[-1]) or (inline and ids is not None and strip_transparent(x[1]) == strip_transparent(ids)))]
-                direct = bool(idx0) and term_int(ws.get('curr_index')) == 1 and (p.ret[0] == 'call' and p.ret[1] in (T + 'MIDGenerator::new', T + 'TransactionID::new'))
+                direct = bool(idx0) and term_int(ws.get('curr_index')) == 1 and (p.ret is not None and p.ret[0] == 'call' and p.ret[1] in (T + 'MIDGenerator::new', T + 'TransactionID::new'))
                 if not (fresh and (retry or direct)):
                     ok = False
         ok = ok and seen_kinds == {'hit', 'miss'}
